@@ -52,6 +52,10 @@ def _reviewed():
     return json.load(open(os.path.join(VERIF, "tables", "panic_sites.json")))["reviewed"]
 
 
+# spellings of one obligation ("the split point / bound is at most the slice's length")
+SLICE_BOUND = ("call:index:std::ops::RangeTo<usize>", "call:index:std::ops::RangeFrom<usize>", "call:split_at", "call:split_at_mut")
+
+
 # --------------------------------------------------------------------------- local proofs
 #
 # A panic-capable edge that a small local argument proves dead is not counted against the reviewed table
@@ -305,7 +309,7 @@ def local_proof(b, bi):
             if why:
                 return why
         if b.id not in _IV:
-            _IV[b.id] = ival.Interval(b)
+            _IV[b.id] = ival.for_body(b)
         iv = _IV[b.id]
         A, C = iv.at_call(bi, a), iv.at_call(bi, c)
         if A and C:
@@ -337,6 +341,14 @@ def local_proof(b, bi):
                 return "range bound is min(len(slice), ..) of the same slice"
         if k.startswith("call:index:std::ops::RangeFull"):
             return "[..] cannot fail"
+        if k.startswith("call:panic"):
+            # an assertion whose failing branch the interval analysis proves infeasible (`debug_assert!` of a range
+            # that the callers' checks already established)
+            if b.id not in _IV:
+                _IV[b.id] = ival.for_body(b)
+            iv = _IV[b.id]
+            if iv is not None and bi not in iv.entry and bi not in getattr(iv, "threaded", {}):
+                return "the failing branch of this assertion is infeasible: the asserted range holds on every path (interval analysis, with the argument ranges of every call site)"
     return None
 
 
@@ -392,6 +404,14 @@ def r04_1(ctx):
                             need -= 1
                             moved.append((p_[0].name, g))
                             break
+                # the same bound argument under another spelling: `&x[..n]`, `&x[n..]`, `x.split_at(n)` all need
+                # n <= len; an entry of this file for one of them that is now under-used covers another
+                if need > 0 and k in SLICE_BOUND:
+                    for (g, k2), ent in spare.items():
+                        while need > 0 and g == f and k2 != k and k2 in SLICE_BOUND and ent[0] > 0:
+                            ent[0] -= 1
+                            need -= 1
+                            moved.append((k2, g))
                 excess = excess if need > 0 else []
             ok = not excess
             why = want.get(f, {}).get(k, {}).get("why", "NOT REVIEWED")
